@@ -5,17 +5,24 @@ From Coq Require Import ZArith Bool Floats.
 From NS Require Import Base.FloatBridge Gen.TrF Model.RenderFloat.
 Local Open Scope Z_scope.
 
-Lemma trf_sigma_melody_eq spq qpm : trf_sigma_melody spq qpm = Some (sigma_rel qpm spq).
+(** Python float division by zero raises ZeroDivisionError: the translation returns None exactly there. *)
+Definition guard_rel (spq : Z) (qpm : PrimFloat.float) (v : PrimFloat.float) : option PrimFloat.float :=
+  if PrimFloat.eqb qpm 0%float then None else if PrimFloat.eqb (f_of_Z spq) 0%float then None else Some v.
+
+Lemma trf_sigma_melody_eq spq qpm : trf_sigma_melody spq qpm = guard_rel spq qpm (sigma_rel qpm spq).
 Proof. reflexivity. Qed.
-Lemma trf_sigma_drums_eq spq qpm : trf_sigma_drums spq qpm = Some (sigma_rel qpm spq).
+Lemma trf_sigma_drums_eq spq qpm : trf_sigma_drums spq qpm = guard_rel spq qpm (sigma_rel qpm spq).
 Proof. reflexivity. Qed.
-Lemma trf_sigma_chords_eq spq qpm : trf_sigma_chords spq qpm = Some (sigma_rel qpm spq).
+Lemma trf_sigma_chords_eq spq qpm : trf_sigma_chords spq qpm = guard_rel spq qpm (sigma_rel qpm spq).
 Proof. reflexivity. Qed.
-Lemma trf_sigma_pianoroll_eq spq qpm : trf_sigma_pianoroll spq qpm = Some (sigma_rel qpm spq).
+Lemma trf_sigma_pianoroll_eq spq qpm : trf_sigma_pianoroll spq qpm = guard_rel spq qpm (sigma_rel qpm spq).
 Proof. reflexivity. Qed.
-Lemma trf_sigma_metric_eq spq qpm : trf_sigma_metric spq qpm = Some (sigma_metric qpm spq).
+Lemma trf_sigma_metric_eq spq qpm : trf_sigma_metric spq qpm =
+  if PrimFloat.eqb (f_of_Z spq * qpm)%float 0%float then None else Some (sigma_metric qpm spq).
 Proof. reflexivity. Qed.
-Lemma trf_sigma_performance_eq sps : trf_sigma_performance sps = Some (sigma_abs sps).
+Lemma trf_sigma_performance_eq sps : trf_sigma_performance sps =
+  if PrimFloat.eqb (f_of_Z sps) 0%float then None else Some (sigma_abs sps).
 Proof. reflexivity. Qed.
-Lemma trf_sigma_noteperformance_eq sps : trf_sigma_noteperformance sps = Some (sigma_abs sps).
+Lemma trf_sigma_noteperformance_eq sps : trf_sigma_noteperformance sps =
+  if PrimFloat.eqb (f_of_Z sps) 0%float then None else Some (sigma_abs sps).
 Proof. reflexivity. Qed.
